@@ -118,12 +118,21 @@ fn chk_sa_op(toks: &[&str]) -> Result<(), String> {
 // C14
 // ---------------------------------------------------------------------------------------------
 fn gen_payload(rng: &mut Rng, kind: u64, size: usize) -> Vec<u8> {
-    match kind % 5 {
+    match kind % 9 {
         0 => vec![],
         1 => vec![rng.next() as u8],
         2 => (0..size).map(|i| b"abcabcabd"[i % 9]).collect(),
         3 => rng.bytes(size),
-        _ => (0..size).map(|i| if i % 97 < 60 { 0 } else { rng.next() as u8 }).collect(),
+        4 => (0..size).map(|i| if i % 97 < 60 { 0 } else { rng.next() as u8 }).collect(),
+        // inputs that are themselves compressed streams, or merely begin like one (a codec must not look at its input)
+        5 => spec::codec_compress(2, &rng.bytes(size / 2 + 1)),
+        6 => spec::codec_compress(4, &rng.bytes(size / 2 + 1)),
+        7 => spec::codec_compress(3, &rng.bytes(size / 2 + 1)),
+        _ => {
+            let mut v: Vec<u8> = [&[0x1fu8, 0x8b, 0x08][..], &[0x28, 0xb5, 0x2f, 0xfd][..], &b"PMTiles\x03"[..], &[0xce, 0xb2, 0xcf, 0x81][..]][(size + rng.below(4) as usize) % 4].to_vec();
+            v.extend_from_slice(&rng.bytes(size));
+            v
+        }
     }
 }
 fn chk_codec(c: Compression, kind: u64, size: usize, seed: u64) -> Result<(), String> {
@@ -252,6 +261,27 @@ fn chk_codec(c: Compression, kind: u64, size: usize, seed: u64) -> Result<(), St
     .map_err(|e| format!("compress_async: {e}"))?;
     if spec::codec_decompress(code, &za)? != data {
         return Err("compress_async output is not decoded to the input by the upstream library".into());
+    }
+    // the same into a sink under back-pressure: short writes, and Pending before many of the calls
+    if size <= 200_000 {
+        for (chunks, pend) in [(vec![3usize, 1, 50, 7, 4096], vec![true, false, true, true, false]), (vec![1usize], vec![true]), (vec![8192, 5], vec![false, true])] {
+            let mut sink = crate::streams::AsyncStream(crate::streams::Core::new(Vec::new(), 0));
+            sink.0.sched = crate::streams::Schedule { chunks: chunks.clone(), pend: pend.clone() };
+            block_on(async {
+                let mut w = pmtiles2::util::compress_async(c, &mut sink)?;
+                let mut i = 0;
+                while i < data.len() {
+                    let n = (rng.range(1, 9000) as usize).min(data.len() - i);
+                    w.write_all(&data[i..i + n]).await?;
+                    i += n;
+                }
+                w.close().await
+            })
+            .map_err(|e| format!("compress_async into a slow sink: {e}"))?;
+            if spec::codec_decompress(code, &sink.0.data).map_err(|e| format!("compress_async into a sink with short writes {chunks:?} and Pending {pend:?}: {e}"))? != data {
+                return Err(format!("compress_async into a sink with short writes {chunks:?} and Pending {pend:?} is not decoded to the input"));
+            }
+        }
     }
     let back = block_on(async {
         let mut cur = futures::io::Cursor::new(&z);
